@@ -11,6 +11,15 @@ import (
 	"github.com/klev-dev/klevdb/pkg/segment"
 )
 
+func init() {
+	vrt.Register("h_index.IndexConsume", IndexConsume)
+	vrt.Register("h_index.IndexGet", IndexGet)
+	vrt.Register("h_index.IndexTime", IndexTime)
+	vrt.Register("h_index.SegmentConsume", SegmentConsume)
+	vrt.Register("h_index.SegmentGet", SegmentGet)
+	vrt.Register("h_index.MinOffsetOrder", MinOffsetOrder)
+}
+
 // items: n symbolic items with strictly increasing offsets (the documented invariant).
 func genItems(n int) []index.Item {
 	items := make([]index.Item, n)
